@@ -308,6 +308,11 @@ func vrtBatchHarness(nocheck bool) {
 				vrt.Assert("C04.credited-to-recipient@D18", uint64(post) == exp[ai][ti])
 			} else {
 				vrt.Assert("C03.exact-effects", uint64(post) == exp[ai][ti])
+				if hasConv {
+					// read as C07: every conversion of the batch is credited by the formula at the
+					// rates of ITS OWN assets
+					vrt.Assert("C07.every-conversion-of-a-batch-follows-the-formula", uint64(post) == exp[ai][ti])
+				}
 				vrt.Assert("C04.credited-to-recipient", uint64(post) == exp[ai][ti])
 			}
 		}
